@@ -39,7 +39,7 @@ def minimums(tier):
             "junk.edit": 300, "junk.hostile-json": 50, "mode.-a": 100, "mode.-l": 100, "mode.-n": 100, "mode.-j": 100, "mode.--plid": 30,
             "mode.--src": 30, "mode.--src-exclude": 30, "mode.-a -x": 30, "mode.-l -x": 30, "sub.relations_checked": 40,
             "junk.nested_dir": 100, "junk.symlink_to_dir": 50, "junk.dir_named_with_extension": 30,
-            "mode.with_extension_filter": 60}
+            "mode.with_extension_filter": 60, "sub.good_pel_with_unencodable_text": 4}
 
 
 def classify(data, cls):
@@ -128,6 +128,18 @@ def wellformed(argv, out):
 def run_sub(spec, ctx, rng, u, reg, root):
     for i in range(spec["n"]):
         good = dirs.gen_dir_model(rng, u, rng.choice([1, 2, 4]), reg=reg, fixtures=False)
+        # a well-formed PEL whose JSON user data holds text that not every output encoding can represent (Latin-1, an
+        # emoji, a lone surrogate written as an escape): it sorts between the others and is displayed like them
+        import json as _json
+        from vf import gen as _gen
+        raw = _json.dumps({"Note": rng.choice(["caf\u00e9", "\U0001f525 fire", "half \ud83d pair"]), "More": ["\u00fc", "\udc00"]})
+        odd = pm.Pel("O", pm.gen_ph(rng, u, "O"), pm.gen_uh(rng, "O", sev=0x40, flags=0xA000),
+                     [pm.sec_ud(rng, u, "O", 0x2000, 1, 1, _gen.nul_pad(raw.encode()), expect_mode="json"), pm.gen_mt(rng, u, "O")])
+        names = sorted(e.name for e in good)
+        nm = names[0] + "_m" if len(names) > 1 else "zz_last"
+        if all(e.name != nm for e in good):
+            good.append(dirs.Entry(nm, odd, odd.encode()))
+            ctx.count("sub.good_pel_with_unencodable_text")
         clean = dirs.PelDir(os.path.join(root, "sclean"))
         clean.extend(good)
         dirty = dirs.PelDir(os.path.join(root, "sdirty"))
@@ -165,6 +177,15 @@ def run_sub(spec, ctx, rng, u, reg, root):
                     ctx.violation("C09/exit-status/" + argv[0], "peltool %s (own process, env %s) with junk files present: rc=%d %s" %
                                   (" ".join(argv), envx, p1.returncode, err[-400:]))
                     continue
+                if argv != ["-j"]:
+                    try:
+                        wellformed(argv, p1.stdout.decode(envx.get("PYTHONIOENCODING", "utf-8").split(":")[0], "surrogateescape"))
+                        ctx.count("sub.stdout_wellformed")
+                    except (BadOutput, ValueError) as e:
+                        ctx.violation("C09/sub-malformed-output/" + argv[0], "stdout of peltool %s (own process, env %s) on a directory "
+                                      "with junk is not the well-formed document of that mode: %s" % (" ".join(argv), envx, e),
+                                      tail=p1.stdout[-300:])
+                        continue
                 if argv == ["-j"]:
                     if f0 != f1:
                         ctx.violation("C09/json-files-differ", "-j (own process, env %s) wrote %s with junk present, %s without" %
